@@ -60,6 +60,13 @@ pub enum Action {
     TxReaderInside { ops: Vec<OpSpec>, commit: bool },
     /// close the handle and open the file again
     Reopen,
+    /// close the handle, try to open the file with another page size (must be refused, by an error or
+    /// the documented panic, without touching the file), open it again with its own page size
+    OpenWrongPagesize(u64),
+    /// environment damage: with the handle closed, the header slot that is NOT the current one gets
+    /// its transaction-id word overwritten (as a torn header write leaves it: checksum invalid); then
+    /// the file is opened again.  The committed state is unchanged.
+    TearOtherSlot,
     /// open a long-lived reader (kept until closed)
     OpenReader,
     /// close the i-th open reader (in opening order)
@@ -75,6 +82,8 @@ impl Action {
             Action::RoCommit => json!("ro-commit"),
             Action::TxFail { ops, call } => json!({"txfail": ops.iter().map(|o| o.to_json()).collect::<Vec<_>>(), "failing_io_call": call}),
             Action::Reopen => json!("reopen"),
+            Action::TearOtherSlot => json!("tear-other-header-slot"),
+            Action::OpenWrongPagesize(ps) => json!({"open-with-pagesize": ps}),
             Action::OpenReader => json!("open-reader"),
             Action::CloseReader(i) => json!({"close-reader": i}),
         }
@@ -83,6 +92,7 @@ impl Action {
         if let Some(s) = v.as_str() {
             return match s {
                 "reopen" => Action::Reopen,
+                "tear-other-header-slot" => Action::TearOtherSlot,
                 "open-reader" => Action::OpenReader,
                 "ro-commit" => Action::RoCommit,
                 _ => panic!("unknown action {}", s),
@@ -99,6 +109,9 @@ impl Action {
         }
         if let Some(ops) = v.get("rotx") {
             return Action::RoTx { ops: ops.as_array().unwrap().iter().map(OpSpec::from_json).collect() };
+        }
+        if let Some(ps) = v.get("open-with-pagesize") {
+            return Action::OpenWrongPagesize(ps.as_u64().unwrap());
         }
         if let Some(i) = v.get("close-reader") {
             return Action::CloseReader(i.as_u64().unwrap() as usize);
@@ -630,7 +643,10 @@ impl Runner {
                 // call >= 1000: the (call-1000)-th fsync fails: the outcome may be the pre- or the
                 // post-state, whichever it is must be complete and later commits must work
                 let before_model = self.model.clone();
-                self.fault_next_commit = Some(if *call >= 1000 { crate::iosim::Fault::nth(crate::iosim::Kind::Fsync, *call - 1000, libc::EIO) } else { crate::iosim::Fault::at(*call, crate::iosim::FaultMode::Errno(libc::EIO)) });
+                self.fault_next_commit = Some(if *call >= 2000 {
+                    // any call of the commit, outcome pre- or post-state (the call may lie after the header write)
+                    crate::iosim::Fault::at(*call - 2000, crate::iosim::FaultMode::Errno(libc::EIO))
+                } else if *call >= 1000 { crate::iosim::Fault::nth(crate::iosim::Kind::Fsync, *call - 1000, libc::EIO) } else { crate::iosim::Fault::at(*call, crate::iosim::FaultMode::Errno(libc::EIO)) });
                 let inner = self.step(&Action::Tx { ops: ops.clone(), commit: true }, &Oracles::NONE);
                 out.extend(inner);
                 self.fault_next_commit = None;
@@ -763,6 +779,80 @@ impl Runner {
                     let writes = events.iter().filter(|e| matches!(e, crate::iosim::IoEvent::Write { .. } | crate::iosim::IoEvent::Fallocate { .. } | crate::iosim::IoEvent::Ftruncate { .. })).count();
                     if writes > 0 {
                         out.push(Violation::new("open_wrote", format!("{} write/extend calls while opening an existing database", writes)));
+                    }
+                }
+                self.check_committed_state(or, &what, &mut out);
+            }
+            Action::OpenWrongPagesize(ps) => {
+                if !self.readers.is_empty() || *ps == self.cfg.pagesize {
+                    return out;
+                }
+                self.db = None;
+                let before = std::fs::read(&self.path).unwrap_or_default();
+                let wrong = Cfg { pagesize: *ps, ..self.cfg.clone() };
+                let path = self.path.clone();
+                let r = guarded(|| wrong.open(&path).map(|_| ()));
+                if let Ok(Ok(())) = r {
+                    out.push(Violation::new("pagesize_mismatch_accepted", format!("opening the database (page size {}) with page size {} was not refused", self.cfg.pagesize, ps)));
+                }
+                let after = std::fs::read(&self.path).unwrap_or_default();
+                if after != before {
+                    out.push(Violation::new("refused_open_modified_file", format!("an open with page size {} changed the file ({} -> {} bytes)", ps, before.len(), after.len())));
+                    self.poisoned = true;
+                    return out;
+                }
+                let cfg = self.cfg.clone();
+                match guarded(|| cfg.open(&path)) {
+                    Ok(Ok(db)) => self.db = Some(Box::new(db)),
+                    other => {
+                        out.push(Violation::new("reopen_error", format!("open with the right page size after a refused one: {:?}", other.map(|x| x.map(|_| ())))));
+                        self.poisoned = true;
+                        return out;
+                    }
+                }
+                self.check_committed_state(or, &what, &mut out);
+            }
+            Action::TearOtherSlot => {
+                if !self.readers.is_empty() {
+                    return out;
+                }
+                self.db = None;
+                let bytes = self.file_bytes();
+                let ps = self.cfg.pagesize;
+                match crate::fileck::choose_meta(&bytes, ps) {
+                    Ok(m) => {
+                        let other = (1 - m.slot) * ps;
+                        // the transaction-id word of the header record
+                        let at = other + crate::fileck::REC_OFF as u64 + 56;
+                        let r = std::fs::OpenOptions::new().write(true).open(&self.path).and_then(|f| {
+                            use std::os::unix::fs::FileExt;
+                            f.write_all_at(&[0xA5u8; 8], at)
+                        });
+                        if let Err(e) = r {
+                            out.push(Violation::new("harness", format!("cannot damage the file: {}", e)));
+                            self.poisoned = true;
+                            return out;
+                        }
+                    }
+                    Err(e) => {
+                        out.push(Violation::new("fileck", format!("no valid header before the damage: {}", e)));
+                        self.poisoned = true;
+                        return out;
+                    }
+                }
+                let cfg = self.cfg.clone();
+                let path = self.path.clone();
+                match guarded(|| cfg.open(&path)) {
+                    Ok(Ok(db)) => self.db = Some(Box::new(db)),
+                    Ok(Err(e)) => {
+                        out.push(Violation::new("reopen_error", format!("open with one torn header slot failed: {:?}", e)));
+                        self.poisoned = true;
+                        return out;
+                    }
+                    Err(p) => {
+                        out.push(Violation::new(panic_class("reopen_panic", &p), p));
+                        self.poisoned = true;
+                        return out;
                     }
                 }
                 self.check_committed_state(or, &what, &mut out);
